@@ -1,10 +1,34 @@
-from jsim.envs.base import Adapter
+"""Maze: rules written from docs/environments/maze.md and the class docstring.
+
+Grid of num_rows x num_cols cells, each free or a wall; (0, 0) is the top-left cell. One agent, one
+target cell. Actions 0..3 = up, right, down, left: the agent moves one cell. A move is legal iff the
+cell it leads to is inside the grid and not a wall; "if an invalid action is taken, or an action is
+blocked by a wall, a no-op is performed and the agent's position remains unchanged" (the episode
+continues). Reward 1 for reaching the target, 0 otherwise. The episode ends when the agent reaches
+the target or at the time limit. Walls and target never change.
+
+Not modelled (docs silent): the implementation also ends the episode when the agent has no legal
+move at all; the generators never box the agent in, so the model keeps the two documented causes.
+"""
+from __future__ import annotations
+
+from typing import Any, Optional, Tuple
+
+import numpy as np
+
 from jsim.envs._mk import cfg, cross_tl
+from jsim.envs.base import Adapter, bfs_path
+
+DELTA = [(-1, 0), (0, 1), (1, 0), (0, -1)]  # up, right, down, left
 
 
 class A(Adapter):
     name = "Maze"
     mask_mode = "flat"
+    has_invalid_effect = True
+    has_physical = True
+    has_model = True
+    has_observer = True
 
     def configs(self):
         base = [cfg("r10c10", True, gen="random", r=10, c=10, tl=None), cfg("r5c9", True, gen="random", r=5, c=9, tl=None),
@@ -19,3 +43,139 @@ class A(Adapter):
 
     def time_limit(self, env, c):
         return int(env.num_rows * env.num_cols) if c.get("tl") is None else c["tl"]
+
+    # ---- rules ---------------------------------------------------------------------------------
+    @staticmethod
+    def _pos(p: Any) -> Tuple[int, int]:
+        return int(p.row), int(p.col)
+
+    @staticmethod
+    def _free(walls: np.ndarray, r: int, c: int) -> bool:
+        R, C = walls.shape
+        return 0 <= r < R and 0 <= c < C and not bool(walls[r, c])
+
+    def legal(self, s: Any, env: Any) -> np.ndarray:
+        walls = np.asarray(s.walls).astype(bool)
+        r, c = self._pos(s.agent_position)
+        return np.asarray([self._free(walls, r + dr, c + dc) for dr, dc in DELTA], bool)
+
+    def describe(self, s, env, idx):
+        return f"agent={self._pos(s.agent_position)} target={self._pos(s.target_position)} walls=\n{np.asarray(s.walls).astype(int)}"
+
+    def _same_world(self, ps: Any, s: Any) -> Optional[Tuple[str, str]]:
+        if not np.array_equal(np.asarray(ps.walls).astype(bool), np.asarray(s.walls).astype(bool)):
+            return ("walls_changed", "the walls array changed during a step")
+        if self._pos(ps.target_position) != self._pos(s.target_position):
+            return ("target_moved", f"target moved {self._pos(ps.target_position)} -> {self._pos(s.target_position)}")
+        return None
+
+    # ---- C05 (ignore-invalid) --------------------------------------------------------------------
+    def invalid_effect(self, ps, action, illegal, s, ts, env, cfg):
+        before, after = self._pos(ps.agent_position), self._pos(s.agent_position)
+        if after != before:
+            return ("blocked_move_moved_agent", f"agent moved {before} -> {after} on the blocked action {int(action)}")
+        d = self._same_world(ps, s)
+        if d is not None:
+            return d
+        sc = int(ps.step_count) + 1
+        if int(s.step_count) != sc:
+            return ("blocked_move_step_count", f"step_count {int(s.step_count)} expected {sc}")
+        tl = self.time_limit(env, cfg)
+        on_target = before == self._pos(ps.target_position)  # cannot happen in a continuing episode; then nothing is asserted
+        if not on_target:
+            if (int(ts.step_type) == 2) != (sc >= tl):
+                return ("blocked_move_termination", f"step_type {int(ts.step_type)} after a blocked move at step {sc} (time_limit {tl})")
+            if not np.isclose(float(ts.reward), 0.0, rtol=1e-5, atol=1e-6):
+                return ("blocked_move_reward", f"reward {float(ts.reward)} != 0 although the agent did not reach the target")
+        return None
+
+    # ---- C07 -------------------------------------------------------------------------------------
+    def physical(self, ps, action, s, ts, env, cfg):
+        walls = np.asarray(s.walls).astype(bool)
+        R, C = walls.shape
+        r, c = self._pos(s.agent_position)
+        if not (0 <= r < R and 0 <= c < C):
+            return ("agent_outside_grid", f"agent {(r, c)} outside {R}x{C}")
+        if walls[r, c]:
+            return ("agent_on_wall", f"agent {(r, c)} stands on a wall")
+        if ps is not None:
+            return self._same_world(ps, s)
+        return None
+
+    # ---- C09 -------------------------------------------------------------------------------------
+    def model_step(self, ps, action, s, ts, env, cfg):
+        a = int(action)
+        walls = np.asarray(ps.walls).astype(bool)
+        r, c = self._pos(ps.agent_position)
+        nr, nc = r + DELTA[a][0], c + DELTA[a][1]
+        if not self._free(walls, nr, nc):
+            nr, nc = r, c
+        if self._pos(s.agent_position) != (nr, nc):
+            return ("agent_position", f"agent {self._pos(s.agent_position)} expected {(nr, nc)} (from {(r, c)}, action {a})")
+        d = self._same_world(ps, s)
+        if d is not None:
+            return d
+        sc = int(ps.step_count) + 1
+        if int(s.step_count) != sc:
+            return ("step_count", f"step_count {int(s.step_count)} expected {sc}")
+        reached = (nr, nc) == self._pos(ps.target_position)
+        want = 1.0 if reached else 0.0
+        if not np.isclose(float(ts.reward), want, rtol=1e-5, atol=1e-6):
+            return ("reward", f"reward {float(ts.reward)} expected {want}")
+        tl = self.time_limit(env, cfg)
+        done = reached or sc >= tl
+        if (int(ts.step_type) == 2) != done:
+            return ("termination", f"step_type {int(ts.step_type)} but the rules say done={done} (reached={reached}, step {sc}/{tl})")
+        return None
+
+    # ---- C11 -------------------------------------------------------------------------------------
+    def end_cause(self, ps, action, s, ts, env, cfg):
+        if self._pos(s.agent_position) == self._pos(s.target_position):
+            return "target_reached"
+        return None
+
+    # ---- C12 -------------------------------------------------------------------------------------
+    def observe(self, s, obs, env, cfg):
+        if self._pos(obs.agent_position) != self._pos(s.agent_position):
+            return ("agent_position", f"obs {self._pos(obs.agent_position)} vs state {self._pos(s.agent_position)}")
+        if self._pos(obs.target_position) != self._pos(s.target_position):
+            return ("target_position", f"obs {self._pos(obs.target_position)} vs state {self._pos(s.target_position)}")
+        if not np.array_equal(np.asarray(obs.walls), np.asarray(s.walls)):
+            return ("walls", "obs.walls != state.walls")
+        if int(obs.step_count) != int(s.step_count):
+            return ("step_count", f"obs {int(obs.step_count)} vs state {int(s.step_count)}")
+        if not np.array_equal(np.asarray(obs.action_mask), np.asarray(s.action_mask)):
+            return ("action_mask", "obs.action_mask != state.action_mask")
+        return None
+
+    # ---- policies ----------------------------------------------------------------------------------
+    def policy_survive(self, s, env, rng, legal):
+        """Never step onto the target: walk among free non-target cells, or bump into a wall."""
+        walls = np.asarray(s.walls).astype(bool)
+        r, c = self._pos(s.agent_position)
+        tgt = self._pos(s.target_position)
+        moves, bumps = [], []
+        for a in [int(x) for x in rng.permutation(4)]:
+            nr, nc = r + DELTA[a][0], c + DELTA[a][1]
+            if not self._free(walls, nr, nc):
+                bumps.append(a)
+            elif (nr, nc) != tgt:
+                moves.append(a)
+        if moves and (not bumps or rng.random() < 0.8):
+            return moves[0]
+        if bumps:
+            return bumps[0]
+        return moves[0] if moves else None
+
+    def policy_complete(self, s, env, rng, legal):
+        walls = np.asarray(s.walls).astype(bool)
+        R, C = walls.shape
+        start = self._pos(s.agent_position)
+        tgt = self._pos(s.target_position)
+        if not (0 <= start[0] < R and 0 <= start[1] < C):
+            return None
+        path = bfs_path(~walls, start, lambda cell: cell == tgt)
+        if path is None or len(path) < 2:
+            return None
+        step = (path[1][0] - start[0], path[1][1] - start[1])
+        return DELTA.index(step)
